@@ -29,6 +29,8 @@ pub struct PhysMem {
     slots: BTreeMap<u64, usize>, // frame number -> arena slot
     next_slot: usize,
     pub garbage_seed: u64,
+    /// Some(zone seed): frames outside the table zones (data memory) read as zero instead of garbage
+    pub zero_data: Option<u64>,
 }
 
 unsafe impl Send for PhysMem {}
@@ -55,7 +57,23 @@ pub fn garbage_word(seed: u64, frame_no: u64, idx: usize) -> u64 {
     }
 }
 
+/// Which 1 GiB zones of physical memory hold page tables (seeded predicate shared by the
+/// allocator, the step generator and the memory fill).
+pub fn is_table_zone(zone_seed: u64, pa: u64) -> bool {
+    mix2(zone_seed, pa >> 30) & 3 == 0
+}
+
 impl PhysMem {
+    /// what untouched physical memory holds at (frame number, word index)
+    pub fn fill_word(&self, frame_no: u64, idx: usize) -> u64 {
+        if let Some(z) = self.zero_data {
+            if !is_table_zone(z, frame_no << 12) {
+                return 0;
+            }
+        }
+        garbage_word(self.garbage_seed, frame_no, idx)
+    }
+
     pub fn new() -> PhysMem {
         unsafe {
             let fd = libc::memfd_create(b"dimms\0".as_ptr() as *const libc::c_char, 0);
@@ -76,7 +94,7 @@ impl PhysMem {
             if arena == libc::MAP_FAILED {
                 die("arena mmap");
             }
-            PhysMem { fd, arena: arena as *mut u8, slots: BTreeMap::new(), next_slot: 0, garbage_seed: 0 }
+            PhysMem { fd, arena: arena as *mut u8, slots: BTreeMap::new(), next_slot: 0, garbage_seed: 0, zero_data: None }
         }
     }
 
@@ -148,7 +166,7 @@ impl PhysMem {
             }
             let words = at as *mut u64;
             for i in 0..512 {
-                words.add(i).write_volatile(garbage_word(self.garbage_seed, fno, i));
+                words.add(i).write_volatile(self.fill_word(fno, i));
             }
             self.slots.insert(fno, s);
             at
@@ -164,7 +182,7 @@ impl PhysMem {
         let pa = pa & (PHYS_SIZE - 1);
         match self.ptr(pa & !0xfff) {
             Some(p) => unsafe { (p.add((pa & 0xff8) as usize) as *const u64).read_volatile() },
-            None => garbage_word(self.garbage_seed, pa >> 12, ((pa & 0xfff) >> 3) as usize),
+            None => self.fill_word(pa >> 12, ((pa & 0xfff) >> 3) as usize),
         }
     }
 
@@ -183,7 +201,7 @@ impl PhysMem {
             },
             None => {
                 for (i, o) in out.iter_mut().enumerate() {
-                    *o = garbage_word(self.garbage_seed, (pa & (PHYS_SIZE - 1)) >> 12, i);
+                    *o = self.fill_word((pa & (PHYS_SIZE - 1)) >> 12, i);
                 }
             }
         }
